@@ -7,7 +7,7 @@
      5. find_full_path                                                       (full_path)
      6. find_relative_paths: depth-first recursion = frontier semantics      (relative)
      7. the model satisfies prop_C09                                         (main)          *)
-From BT Require Import Base.Prelude Base.Str Base.Rose Algo.Search Spec.PC09.
+From BT Require Import Base.Prelude Base.Str Base.StrSep Base.Rose Algo.Search Spec.PC09.
 
 (* ------------------------------------------------------------------------------------------- *)
 (* generic list facts *)
@@ -430,11 +430,65 @@ Proof.
   rewrite andb_true_r, IH. reflexivity.
 Qed.
 
-Lemma memN_In x s : memN x s = true <-> In x s.
+(* separators of any positive length: when does stripping the character set (what bigtree does)
+   coincide with removing whole separators (what a path means)?  Exactly when the string that is
+   left neither ends nor starts with a character of the separator. *)
+Definition starts_ok (sep s : str) : bool :=
+  match s with [] => true | y :: _ => negb (memN y sep) end.
+Definition ends_ok (sep s : str) : bool := starts_ok sep (rev s).
+(* the query, with whole trailing / leading separators removed, has no stray separator character at
+   its end / start *)
+Definition clean (sep path : str) : bool :=
+  ends_ok sep (trim_right sep path) && starts_ok sep (trim sep path).
+
+Lemma drop_trailing_decomp sep fuel : forall s,
+  exists t, s = drop_trailing sep fuel s ++ t /\ (forall ch, In ch t -> In ch sep).
 Proof.
-  unfold memN. rewrite existsb_exists. split.
-  - intros [y [Hy E]]. apply N.eqb_eq in E. subst. exact Hy.
-  - intros H. exists x. split; [exact H|apply N.eqb_refl].
+  induction fuel as [|f IH]; intros s; [exists []; split; [symmetry; apply app_nil_r|intros ch []]|].
+  cbn [drop_trailing]. destruct sep as [|a sp'] eqn:Es; [exists []; split; [symmetry; apply app_nil_r|intros ch []]|].
+  rewrite <- Es in *. destruct (is_suffix s sep) eqn:E; [|exists []; split; [symmetry; apply app_nil_r|intros ch []]].
+  apply is_suffix_iff in E as [x ->]. rewrite app_length, Nat.add_sub, firstn_length_app.
+  destruct (IH x) as [t [Hx Ht]]. exists (t ++ sep). split.
+  - rewrite app_assoc, <- Hx. reflexivity.
+  - intros ch Hin. apply in_app_or in Hin as [Hin|Hin]; [apply Ht; exact Hin|exact Hin].
+Qed.
+
+Lemma drop_leading_decomp sep fuel : forall s,
+  exists h, s = h ++ drop_leading sep fuel s /\ (forall ch, In ch h -> In ch sep).
+Proof.
+  induction fuel as [|f IH]; intros s; [exists []; split; [reflexivity|intros ch []]|].
+  cbn [drop_leading]. destruct sep as [|a sp'] eqn:Es; [exists []; split; [reflexivity|intros ch []]|].
+  rewrite <- Es in *. rewrite is_prefix_startswith. destruct (startswith s sep) eqn:E; [|exists []; split; [reflexivity|intros ch []]].
+  apply startswith_prefix in E as [r ->]. rewrite skipn_length_app.
+  destruct (IH r) as [h [Hr Hh]]. exists (sep ++ h). split.
+  - rewrite <- app_assoc, <- Hr. reflexivity.
+  - intros ch Hin. apply in_app_or in Hin as [Hin|Hin]; [exact Hin|apply Hh; exact Hin].
+Qed.
+
+Lemma lstrip_starts_ok sep s : starts_ok sep s = true -> lstrip s sep = s.
+Proof.
+  destruct s as [|y t]; [reflexivity|]. cbn [starts_ok lstrip]. intros H.
+  apply negb_true_iff in H. rewrite H. reflexivity.
+Qed.
+
+Lemma rstrip_clean sep path :
+  ends_ok sep (trim_right sep path) = true -> rstrip path sep = trim_right sep path.
+Proof.
+  unfold trim_right, ends_ok. intros H.
+  destruct (drop_trailing_decomp sep (length path) path) as [t [E Ht]].
+  set (P := drop_trailing sep (length path) path) in *. rewrite E at 1.
+  unfold rstrip. rewrite rev_app_distr, lstrip_all.
+  - rewrite lstrip_starts_ok by exact H. apply rev_involutive.
+  - intros ch Hin. apply Ht. apply in_rev. exact Hin.
+Qed.
+
+Lemma strip_clean sep path :
+  clean sep path = true -> lstrip (rstrip path sep) sep = trim sep path.
+Proof.
+  unfold clean. intros H. apply andb_true_iff in H as [H1 H2].
+  rewrite (rstrip_clean _ _ H1). unfold trim in *.
+  destruct (drop_leading_decomp sep (length (trim_right sep path)) (trim_right sep path)) as [h [E Hh]].
+  rewrite E at 1. rewrite lstrip_all by exact Hh. apply lstrip_starts_ok. exact H2.
 Qed.
 
 (* ------------------------------------------------------------------------------------------- *)
@@ -685,27 +739,55 @@ Proof.
   apply memN_In in Hin. congruence.
 Qed.
 
-(* characterisation of find_full_path under the guards, for a one-character separator *)
-Lemma find_full_path_char w c p s path :
-  guards w [c] = true ->
-  locate w p = Some s ->
-  (forall q, In q (full_path_nodes w [c] path) ->
-             exists n, locate w q = Some n /\ find_full_path [c] s path = Ret (Some n))
-  /\ (forall m, find_full_path [c] s path = Ret (Some m) ->
-                exists q, In q (full_path_nodes w [c] path) /\ locate w q = Some m).
+(* what the full-path clause needs from the separator: splitting a joined route gives the route back *)
+Definition names_split (w : tree) (sep : str) : Prop :=
+  forall q, split (join sep (names_from w q)) sep = names_from w q.
+
+Lemma names_split_one w c : sep_safe w [c] = true -> names_split w [c].
 Proof.
-  intros Hg Hs. apply andb_true_iff in Hg as [Hsafe Huniq].
-  unfold find_full_path, path_list_of. rewrite (locate_root _ _ _ Hs), <- trim_strip.
-  set (comps := split (trim [c] path) [c]).
-  assert (Hj : join [c] comps = trim [c] path) by (apply join_split; discriminate).
+  intros Hsafe q. apply split_join; [rewrite names_from_cons; discriminate|apply guard_cfree; exact Hsafe].
+Qed.
+
+(* no character of the separator occurs in any name of the tree *)
+Definition names_sfree (w : tree) (sep : str) : bool :=
+  forallb (fun t => forallb (fun ch => negb (memN ch sep)) (tname t)) (pre w).
+
+Lemma names_sfree_Forall w sep q : names_sfree w sep = true -> Forall (sfree sep) (names_from w q).
+Proof.
+  intros H. apply Forall_forall. intros x Hx. apply names_from_in_pre in Hx as [u [Hu <-]].
+  unfold names_sfree in H. rewrite forallb_forall in H. specialize (H u Hu). rewrite forallb_forall in H.
+  intros ch Hch Hin. specialize (H ch Hin). apply negb_true_iff, memN_false in H. exact (H Hch).
+Qed.
+
+Lemma names_split_multi w sep : sep <> [] -> names_sfree w sep = true -> names_split w sep.
+Proof.
+  intros Hne H q. destruct sep as [|a sp']; [congruence|].
+  apply split_join_multi; [rewrite names_from_cons; discriminate|apply names_sfree_Forall; exact H].
+Qed.
+
+(* characterisation of find_full_path: separator of any length, provided stripping the character
+   set removes exactly the whole separators around this query and routes split back *)
+Lemma find_full_path_char_gen w sep p s path :
+  sep <> [] ->
+  lstrip (rstrip path sep) sep = trim sep path ->
+  names_split w sep ->
+  sibling_names_unique w = true ->
+  locate w p = Some s ->
+  (forall q, In q (full_path_nodes w sep path) ->
+             exists n, locate w q = Some n /\ find_full_path sep s path = Ret (Some n))
+  /\ (forall m, find_full_path sep s path = Ret (Some m) ->
+                exists q, In q (full_path_nodes w sep path) /\ locate w q = Some m).
+Proof.
+  intros Hne Hstrip Hsplit Huniq Hs.
+  unfold find_full_path, path_list_of. rewrite (locate_root _ _ _ Hs), Hstrip.
+  set (comps := split (trim sep path) sep).
+  assert (Hj : join sep comps = trim sep path) by (apply join_split; exact Hne).
   split.
   - intros q Hq. unfold full_path_nodes in Hq. apply filter_In in Hq as [Hin Heq].
     rewrite all_nodes_positions in Hin. apply str_eqb_eq in Heq.
     destruct (positions_located _ _ Hin) as [n Hn]. exists n. split; [exact Hn|].
     assert (Hc : comps = names_from w q).
-    { unfold comps. rewrite <- Heq. unfold names_to. apply split_join.
-      - rewrite names_from_cons. discriminate.
-      - apply guard_cfree. exact Hsafe. }
+    { unfold comps. rewrite <- Heq. unfold names_to. apply Hsplit. }
     rewrite Hc, names_from_cons. cbn [hd tl]. unfold ln_name at 1. cbn [ln_tree].
     rewrite str_eqb_refl. cbn [negb].
     apply full_path_walk_complete; [|exact Hn].
@@ -715,8 +797,8 @@ Proof.
     apply negb_false_iff, str_eqb_eq in Ehd.
     apply full_path_walk_sound in H as [q [Hq Hn]]. cbn [ln_tree] in Hn.
     assert (Hc : names_from w q = comps).
-    { rewrite Hn, <- Ehd. unfold comps, split.
-      destruct (split_go (S (length (trim [c] path))) [c] [] (trim [c] path)) eqn:E; [|reflexivity].
+    { rewrite Hn, <- Ehd. unfold comps, split. destruct sep as [|a sp']; [congruence|].
+      destruct (split_go (S (length (trim (a :: sp') path))) (a :: sp') [] (trim (a :: sp') path)) eqn:E; [|reflexivity].
       exfalso. eapply split_go_nonempty. exact E. }
     exists q. split; [|exact Hq].
     unfold full_path_nodes. apply filter_In. split.
@@ -724,21 +806,50 @@ Proof.
     + unfold names_to. rewrite Hc, Hj. apply str_eqb_refl.
 Qed.
 
+Lemma find_full_path_char w c p s path :
+  guards w [c] = true ->
+  locate w p = Some s ->
+  (forall q, In q (full_path_nodes w [c] path) ->
+             exists n, locate w q = Some n /\ find_full_path [c] s path = Ret (Some n))
+  /\ (forall m, find_full_path [c] s path = Ret (Some m) ->
+                exists q, In q (full_path_nodes w [c] path) /\ locate w q = Some m).
+Proof.
+  intros Hg Hs. apply andb_true_iff in Hg as [Hsafe Huniq].
+  apply (find_full_path_char_gen w [c] p s path); try assumption;
+    [discriminate|symmetry; apply trim_strip|apply names_split_one; exact Hsafe].
+Qed.
+
+Lemma full_path_ok_gen w sep p s path :
+  sep <> [] ->
+  lstrip (rstrip path sep) sep = trim sep path ->
+  (guards w sep = true -> names_split w sep) ->
+  locate w p = Some s ->
+  expect_full_path w sep path true (obs_of (one (find_full_path sep s path))) = true
+  /\ expect_full_path w sep path false
+       (obs_of (match find_full_path sep s path with Raise e => Raise e | Ret r => Ret (Many [r]) end)) = true.
+Proof.
+  intros Hne Hstrip Hsplit Hs. unfold expect_full_path. fold (guards w sep).
+  destruct (guards w sep) eqn:Hg; [|split; reflexivity].
+  assert (Huniq : sibling_names_unique w = true) by (apply andb_true_iff in Hg as [_ H]; exact H).
+  destruct (find_full_path_char_gen w sep p s path Hne Hstrip (Hsplit eq_refl) Huniq Hs) as [HA HB].
+  destruct (full_path_nodes w sep path) as [|q [|q' L]] eqn:E.
+  - destruct (find_full_path sep s path) as [[m|]|e]; try (split; reflexivity).
+    exfalso. destruct (HB m eq_refl) as [q [[] _]].
+  - destruct (HA q (or_introl eq_refl)) as [n [Hn ->]].
+    cbn [one obs_of otag map]. rewrite (tag_at_located _ _ _ Hn). split; apply sobs_eqb_refl.
+  - split; reflexivity.
+Qed.
+
+Lemma guards_split_one w c : guards w [c] = true -> names_split w [c].
+Proof. intros Hg. apply andb_true_iff in Hg as [Hsafe _]. apply names_split_one. exact Hsafe. Qed.
+
 Lemma full_path_ok w c p s path :
   locate w p = Some s ->
   expect_full_path w [c] path true (obs_of (one (find_full_path [c] s path))) = true
   /\ expect_full_path w [c] path false
        (obs_of (match find_full_path [c] s path with Raise e => Raise e | Ret r => Ret (Many [r]) end)) = true.
 Proof.
-  intros Hs. unfold expect_full_path. fold (guards w [c]).
-  destruct (guards w [c]) eqn:Hg; [|split; reflexivity].
-  destruct (find_full_path_char w c p s path Hg Hs) as [HA HB].
-  destruct (full_path_nodes w [c] path) as [|q [|q' L]] eqn:E.
-  - destruct (find_full_path [c] s path) as [[m|]|e]; try (split; reflexivity).
-    exfalso. destruct (HB m eq_refl) as [q [[] _]].
-  - destruct (HA q (or_introl eq_refl)) as [n [Hn ->]].
-    cbn [one obs_of otag map]. rewrite (tag_at_located _ _ _ Hn). split; apply sobs_eqb_refl.
-  - split; reflexivity.
+  apply full_path_ok_gen; [discriminate|symmetry; apply trim_strip|apply guards_split_one].
 Qed.
 
 (* ------------------------------------------------------------------------------------------- *)
@@ -882,27 +993,63 @@ Qed.
 Lemma memN_app x a b : memN x (a ++ b) = memN x a || memN x b.
 Proof. unfold memN. apply existsb_app. Qed.
 
-Lemma memN_join x c comps :
-  N.eqb x c = false -> memN x (join [c] comps) = existsb (memN x) comps.
+Lemma memN_join x sep comps :
+  memN x sep = false -> memN x (join sep comps) = existsb (memN x) comps.
 Proof.
-  intros Hxc. induction comps as [|a l IH]; [reflexivity|]. destruct l as [|b l].
+  intros Hx. induction comps as [|a l IH]; [reflexivity|]. destruct l as [|b l].
   - cbn [join existsb]. rewrite orb_false_r. reflexivity.
-  - rewrite join_cons, !memN_app, IH. cbn [existsb memN]. rewrite Hxc. reflexivity.
+  - rewrite join_cons, !memN_app, IH, Hx. reflexivity.
 Qed.
 
-Lemma wild_eq c s :
-  c <> 42%N -> plain_components (split s [c]) = true ->
-  contains s s_star = has_wildcard (split s [c]).
+Lemma wild_eq_gen sep s :
+  sep <> [] -> memN 42%N sep = false -> plain_components (split s sep) = true ->
+  contains s s_star = has_wildcard (split s sep).
 Proof.
-  intros Hc Hp. rewrite <- (join_split s [c]) at 1 by discriminate.
-  unfold s_star. rewrite contains_one, memN_join by (apply N.eqb_neq; congruence).
-  unfold has_wildcard. revert Hp. generalize (split s [c]). intros comps Hp.
+  intros Hne Hc Hp. rewrite <- (join_split s sep) at 1 by exact Hne.
+  unfold s_star. rewrite contains_one, memN_join by exact Hc.
+  unfold has_wildcard. revert Hp. generalize (split s sep). intros comps Hp.
   induction comps as [|x l IH]; [reflexivity|]. cbn [plain_components forallb] in Hp.
   apply andb_true_iff in Hp as [Hx Hl]. cbn [existsb]. rewrite IH by exact Hl. f_equal.
   rewrite (str_eqb_sym s_star x). unfold s_star in *. rewrite contains_one in Hx.
   destruct (str_eqb x [42%N]) eqn:E.
   - apply str_eqb_eq in E. subst x. reflexivity.
   - cbn [orb] in Hx. apply negb_true_iff in Hx. exact Hx.
+Qed.
+
+Lemma star_not_one c : c <> 42%N -> memN 42%N [c] = false.
+Proof. intros H. unfold memN. cbn [existsb]. rewrite orb_false_r. apply N.eqb_neq. congruence. Qed.
+
+Lemma wild_eq c s :
+  c <> 42%N -> plain_components (split s [c]) = true ->
+  contains s s_star = has_wildcard (split s [c]).
+Proof. intros Hc. apply wild_eq_gen; [discriminate|apply star_not_one; exact Hc]. Qed.
+
+Lemma relative_ok_gen w sep p s path mn mx :
+  sep <> [] -> memN 42%N sep = false ->
+  lstrip (rstrip path sep) sep = trim sep path ->
+  (guards w sep = true -> names_split w sep) ->
+  locate w p = Some s ->
+  expect_relative w sep p path false mn mx
+    (obs_of (match find_relative_paths sep s path mn mx with Raise e => Raise e | Ret l => Ret (Many l) end)) = true
+  /\ expect_relative w sep p path true 0 0 (obs_of (one (find_relative_path sep s path))) = true.
+Proof.
+  intros Hne Hc Hstrip Hsplit Hs. unfold expect_relative, find_relative_path, find_relative_paths.
+  rewrite is_prefix_startswith. destruct (startswith path sep).
+  - destruct (full_path_ok_gen w sep p s path Hne Hstrip Hsplit Hs) as [H1 H2]. split.
+    + destruct (find_full_path sep s path); exact H2.
+    + destruct (find_full_path sep s path); exact H1.
+  - unfold components. rewrite Hstrip.
+    destruct (plain_components (split (trim sep path) sep)) eqn:Hp; [|split; reflexivity].
+    cbn [negb]. rewrite (wild_eq_gen sep _ Hne Hc Hp). rewrite denote_unfold.
+    pose proof (resolve_denote w (has_wildcard (split (trim sep path) sep)) (split (trim sep path) sep) p s Hs) as R.
+    destruct (resolve _ _ s) as [M|e], (denote_from _ _ _ _) as [L|]; cbn [rel] in R; try contradiction.
+    + split.
+      * pose proof (multi_ok w L M mn mx R) as HM. unfold with_count in HM.
+        destruct (check_result_count M mn mx); exact HM.
+      * pose proof (single_ok w L M R) as HS. unfold with_count in HS.
+        destruct (check_result_count M 0 1); [|exact HS].
+        destruct M; exact HS.
+    + subst e. split; reflexivity.
 Qed.
 
 Lemma relative_ok w c p s path mn mx :
@@ -912,23 +1059,8 @@ Lemma relative_ok w c p s path mn mx :
     (obs_of (match find_relative_paths [c] s path mn mx with Raise e => Raise e | Ret l => Ret (Many l) end)) = true
   /\ expect_relative w [c] p path true 0 0 (obs_of (one (find_relative_path [c] s path))) = true.
 Proof.
-  intros Hc Hs. unfold expect_relative, find_relative_path, find_relative_paths.
-  rewrite is_prefix_startswith. destruct (startswith path [c]).
-  - destruct (full_path_ok w c p s path Hs) as [H1 H2]. split.
-    + destruct (find_full_path [c] s path); exact H2.
-    + destruct (find_full_path [c] s path); exact H1.
-  - unfold components. rewrite <- trim_strip.
-    destruct (plain_components (split (trim [c] path) [c])) eqn:Hp; [|split; reflexivity].
-    cbn [negb]. rewrite (wild_eq c _ Hc Hp). rewrite denote_unfold.
-    pose proof (resolve_denote w (has_wildcard (split (trim [c] path) [c])) (split (trim [c] path) [c]) p s Hs) as R.
-    destruct (resolve _ _ s) as [M|e], (denote_from _ _ _ _) as [L|]; cbn [rel] in R; try contradiction.
-    + split.
-      * pose proof (multi_ok w L M mn mx R) as HM. unfold with_count in HM.
-        destruct (check_result_count M mn mx); exact HM.
-      * pose proof (single_ok w L M R) as HS. unfold with_count in HS.
-        destruct (check_result_count M 0 1); [|exact HS].
-        destruct M; exact HS.
-    + subst e. split; reflexivity.
+  intros Hc. apply relative_ok_gen;
+    [discriminate|apply star_not_one; exact Hc|symmetry; apply trim_strip|apply guards_split_one].
 Qed.
 
 (* ------------------------------------------------------------------------------------------- *)
@@ -940,33 +1072,83 @@ Lemma sat_name_located w nm q n : locate w q = Some n -> sat_name w nm q = name_
 Proof. intros H. unfold sat_name, name_is. rewrite (name_at_located _ _ _ H). reflexivity. Qed.
 Lemma sat_attr_located w k v q n : locate w q = Some n -> sat_attr w k v q = attr_is k v n.
 Proof. intros H. unfold sat_attr, attr_is, ln_get_attr. rewrite (attrs_at_located _ _ _ H). reflexivity. Qed.
-Lemma sat_path_located w c path q n :
-  locate w q = Some n -> sat_path w [c] path q = path_ends [c] (rstrip path [c]) n.
+Lemma sat_path_located_gen w sep path q n :
+  rstrip path sep = trim_right sep path ->
+  locate w q = Some n -> sat_path w sep path q = path_ends sep (rstrip path sep) n.
 Proof.
-  intros H. unfold sat_path, path_ends.
-  rewrite (path_of_located _ _ _ _ H), trim_right_rstrip. apply is_suffix_endswith.
+  intros Hr H. unfold sat_path, path_ends.
+  rewrite (path_of_located _ _ _ _ H), Hr. apply is_suffix_endswith.
 Qed.
 
-Lemma query_ok w c p s q :
-  c <> 42%N -> locate w p = Some s ->
-  prop_query w [c] p q (obs_of (run_query [c] s q)) = true.
+Lemma sat_path_located w c path q n :
+  locate w q = Some n -> sat_path w [c] path q = path_ends [c] (rstrip path [c]) n.
+Proof. apply sat_path_located_gen. symmetry. apply trim_right_rstrip. Qed.
+
+(* the path string of a query, if it has one *)
+Definition query_path (q : query) : option str :=
+  match q with
+  | QFindPath p | QFindPaths p | QFindFullPath p | QFindRelPath p | QFindRelPaths p _ _ => Some p
+  | _ => None
+  end.
+(* on this query, stripping the character set = removing whole separators *)
+Definition strips_ok (sep : str) (q : query) : Prop :=
+  forall path, query_path q = Some path ->
+    rstrip path sep = trim_right sep path /\ lstrip (rstrip path sep) sep = trim sep path.
+
+Lemma query_ok_gen w sep p s q :
+  sep <> [] -> memN 42%N sep = false -> strips_ok sep q ->
+  (guards w sep = true -> names_split w sep) ->
+  locate w p = Some s ->
+  prop_query w sep p q (obs_of (run_query sep s q)) = true.
 Proof.
-  intros Hc Hs. destruct q; cbn [prop_query run_query].
+  intros Hne Hc Hq Hsplit Hs. destruct q; cbn [prop_query run_query].
   - rewrite findall_unfold. apply multi_ok, matches_located; [exact Hs|apply sat_tab_located].
   - rewrite find_unfold. apply single_ok, matches_located; [exact Hs|apply sat_tab_located].
   - unfold find_name. rewrite find_unfold. apply single_ok, matches_located; [exact Hs|apply sat_name_located].
   - unfold find_names. rewrite findall_unfold. apply multi_ok, matches_located; [exact Hs|apply sat_name_located].
-  - unfold find_path. rewrite find_unfold. apply single_ok, matches_located; [exact Hs|apply sat_path_located].
-  - unfold find_paths. rewrite findall_unfold. apply multi_ok, matches_located; [exact Hs|apply sat_path_located].
-  - apply (full_path_ok w c p s path Hs).
-  - apply (relative_ok w c p s path 0 0 Hc Hs).
-  - apply (relative_ok w c p s path mn mx Hc Hs).
+  - unfold find_path. rewrite find_unfold. apply single_ok, matches_located; [exact Hs|].
+    intros q0 n0. apply sat_path_located_gen. apply (Hq path eq_refl).
+  - unfold find_paths. rewrite findall_unfold. apply multi_ok, matches_located; [exact Hs|].
+    intros q0 n0. apply sat_path_located_gen. apply (Hq path eq_refl).
+  - apply (full_path_ok_gen w sep p s path Hne (proj2 (Hq path eq_refl)) Hsplit Hs).
+  - apply (relative_ok_gen w sep p s path 0 0 Hne Hc (proj2 (Hq path eq_refl)) Hsplit Hs).
+  - apply (relative_ok_gen w sep p s path mn mx Hne Hc (proj2 (Hq path eq_refl)) Hsplit Hs).
   - unfold find_attr. rewrite find_unfold. apply single_ok, matches_located; [exact Hs|apply sat_attr_located].
   - unfold find_attrs. rewrite findall_unfold. apply multi_ok, matches_located; [exact Hs|apply sat_attr_located].
   - rewrite find_children_unfold. apply multi_ok, child_matches_located; [exact Hs|apply sat_tab_located].
   - rewrite find_child_unfold. apply single_ok, child_matches_located; [exact Hs|apply sat_tab_located].
   - unfold find_child_by_name. rewrite find_child_unfold.
     apply single_ok, child_matches_located; [exact Hs|apply sat_name_located].
+Qed.
+
+Lemma strips_ok_one c q : strips_ok [c] q.
+Proof. intros path _. split; symmetry; [apply trim_right_rstrip|apply trim_strip]. Qed.
+
+Lemma query_ok w c p s q :
+  c <> 42%N -> locate w p = Some s ->
+  prop_query w [c] p q (obs_of (run_query [c] s q)) = true.
+Proof.
+  intros Hc. apply query_ok_gen;
+    [discriminate|apply star_not_one; exact Hc|apply strips_ok_one|apply guards_split_one].
+Qed.
+
+(* separators of any length: the guard on the query *)
+Definition query_clean (sep : str) (q : query) : bool :=
+  match query_path q with Some path => clean sep path | None => true end.
+
+Lemma strips_ok_clean sep q : query_clean sep q = true -> strips_ok sep q.
+Proof.
+  unfold query_clean. intros H path E. rewrite E in H. split; [|apply strip_clean; exact H].
+  apply rstrip_clean. unfold clean in H. apply andb_true_iff in H as [H _]. exact H.
+Qed.
+
+Lemma query_ok_multi w sep p s q :
+  sep <> [] -> memN 42%N sep = false -> names_sfree w sep = true -> query_clean sep q = true ->
+  locate w p = Some s ->
+  prop_query w sep p q (obs_of (run_query sep s q)) = true.
+Proof.
+  intros Hne Hc Hn Hq. apply query_ok_gen; [exact Hne|exact Hc|apply strips_ok_clean; exact Hq|].
+  intros _. apply names_split_multi; assumption.
 Qed.
 
 Theorem model_satisfies_spec i c o :
@@ -976,6 +1158,18 @@ Proof.
   unfold prop_C09. destruct (valid_input _); [|reflexivity]. cbn [si_tree si_start si_sep si_query].
   destruct (locate w p) as [s|] eqn:Hs; [|discriminate]. injection Hm as <-.
   apply query_ok; assumption.
+Qed.
+
+Theorem model_satisfies_spec_multi i o :
+  si_sep i <> [] -> memN 42%N (si_sep i) = false ->
+  names_sfree (si_tree i) (si_sep i) = true -> query_clean (si_sep i) (si_query i) = true ->
+  model i = Some o -> prop_C09 i o = true.
+Proof.
+  destruct i as [w sep p q]. cbn [si_sep si_tree si_query]. intros Hne Hc Hn Hq Hm. unfold model in Hm.
+  cbn [si_tree si_start si_sep si_query] in Hm.
+  unfold prop_C09. destruct (valid_input _); [|reflexivity]. cbn [si_tree si_start si_sep si_query].
+  destruct (locate w p) as [s|] eqn:Hs; [|discriminate]. injection Hm as <-.
+  apply query_ok_multi; assumption.
 Qed.
 
 (* the model is defined on every valid input *)
